@@ -1,2 +1,193 @@
+//! ff / group trait ops (C17).
 use crate::*;
-pub fn register(_m: &mut HashMap<&'static str, OpFn>) {}
+use curve25519_dalek::edwards::SubgroupPoint;
+use ff::{Field, PrimeField};
+use group::cofactor::CofactorGroup;
+use group::{Group, GroupEncoding};
+
+fn ct_sc(o: subtle::CtOption<Scalar>) -> Out {
+    match Option::<Scalar>::from(o) {
+        Some(s) => vec!["some".into(), hex(&s.to_bytes())],
+        None => vec!["none".into()],
+    }
+}
+
+pub fn register(m: &mut HashMap<&'static str, OpFn>) {
+    m.insert("gp.sqrt", |a| ct_sc(Field::sqrt(&a.sc(0))));
+    m.insert("gp.invert", |a| ct_sc(Field::invert(&a.sc(0))));
+    m.insert("gp.sqrt_ratio", |a| {
+        let (c, r) = <Scalar as Field>::sqrt_ratio(&a.sc(0), &a.sc(1));
+        vec![tb(bool::from(c)), hex(&r.to_bytes())]
+    });
+    m.insert("gp.field_ops", |a| {
+        let (x, y) = (a.sc(0), a.sc(1));
+        vec![
+            hex(&Field::square(&x).to_bytes()),
+            hex(&Field::double(&x).to_bytes()),
+            hex(&Field::cube(&x).to_bytes()),
+            tb(bool::from(Field::is_zero(&x))),
+            tb(Field::is_zero_vartime(&x)),
+            tb(bool::from(PrimeField::is_odd(&x))),
+            tb(bool::from(PrimeField::is_even(&x))),
+            hex(&(x + y).to_bytes()),
+            hex(&(x * y).to_bytes()),
+            hex(&x.pow_vartime([5u64, 0, 0, 0]).to_bytes()),
+        ]
+    });
+    m.insert("gp.from_repr", |a| {
+        let b = a.b32(0);
+        let mut o = ct_sc(<Scalar as PrimeField>::from_repr(b));
+        match <Scalar as PrimeField>::from_repr_vartime(b) {
+            Some(s) => {
+                o.push("some".into());
+                o.push(hex(&PrimeField::to_repr(&s)));
+            }
+            None => o.push("none".into()),
+        }
+        o
+    });
+    m.insert("gp.from_u128", |a| vec![hex(&<Scalar as PrimeField>::from_u128(a.int128(0)).to_bytes())]);
+    m.insert("gp.from_str", |a| {
+        match <Scalar as PrimeField>::from_str_vartime(a.tok(0).trim_start_matches('s')) {
+            Some(s) => vec!["some".into(), hex(&s.to_bytes())],
+            None => vec!["none".into()],
+        }
+    });
+    m.insert("gp.from_uniform", |a| {
+        use ff::FromUniformBytes;
+        vec![hex(&<Scalar as FromUniformBytes<64>>::from_uniform_bytes(&a.b64(0)).to_bytes())]
+    });
+    m.insert("gp.consts", |_a| {
+        vec![
+            <Scalar as PrimeField>::MODULUS.to_string(),
+            tint(<Scalar as PrimeField>::NUM_BITS),
+            tint(<Scalar as PrimeField>::CAPACITY),
+            hex(&<Scalar as PrimeField>::TWO_INV.to_bytes()),
+            hex(&<Scalar as PrimeField>::MULTIPLICATIVE_GENERATOR.to_bytes()),
+            tint(<Scalar as PrimeField>::S),
+            hex(&<Scalar as PrimeField>::ROOT_OF_UNITY.to_bytes()),
+            hex(&<Scalar as PrimeField>::ROOT_OF_UNITY_INV.to_bytes()),
+            hex(&<Scalar as PrimeField>::DELTA.to_bytes()),
+            hex(&<Scalar as Field>::ZERO.to_bytes()),
+            hex(&<Scalar as Field>::ONE.to_bytes()),
+        ]
+    });
+    // point encodings through GroupEncoding
+    m.insert("gp.ed_frombytes", |a| {
+        let b = a.b32(0);
+        let mut o = Vec::new();
+        match Option::<EdwardsPoint>::from(<EdwardsPoint as GroupEncoding>::from_bytes(&b)) {
+            Some(p) => {
+                o.push("some".into());
+                o.push(hex(&GroupEncoding::to_bytes(&p)));
+            }
+            None => o.push("none".into()),
+        }
+        match Option::<EdwardsPoint>::from(<EdwardsPoint as GroupEncoding>::from_bytes_unchecked(&b)) {
+            Some(p) => {
+                o.push("some".into());
+                o.push(hex(&GroupEncoding::to_bytes(&p)));
+            }
+            None => o.push("none".into()),
+        }
+        o
+    });
+    m.insert("gp.sub_frombytes", |a| {
+        let b = a.b32(0);
+        let mut o = Vec::new();
+        match Option::<SubgroupPoint>::from(<SubgroupPoint as GroupEncoding>::from_bytes(&b)) {
+            Some(p) => {
+                o.push("some".into());
+                o.push(hex(&GroupEncoding::to_bytes(&p)));
+            }
+            None => o.push("none".into()),
+        }
+        match Option::<SubgroupPoint>::from(<SubgroupPoint as GroupEncoding>::from_bytes_unchecked(&b)) {
+            Some(p) => {
+                o.push("some".into());
+                o.push(hex(&GroupEncoding::to_bytes(&p)));
+            }
+            None => o.push("none".into()),
+        }
+        o
+    });
+    m.insert("gp.rs_frombytes", |a| {
+        let b = a.b32(0);
+        match Option::<RistrettoPoint>::from(<RistrettoPoint as GroupEncoding>::from_bytes(&b)) {
+            Some(p) => vec!["some".into(), hex(&GroupEncoding::to_bytes(&p))],
+            None => vec!["none".into()],
+        }
+    });
+    // cofactor group ops on an Edwards point
+    m.insert("gp.cofactor", |a| {
+        let p = a.ed(0);
+        let mut o = vec![
+            hex(CofactorGroup::clear_cofactor(&p).to_bytes().as_ref()),
+            tb(bool::from(CofactorGroup::is_torsion_free(&p))),
+            tb(bool::from(CofactorGroup::is_small_order(&p))),
+        ];
+        match Option::<SubgroupPoint>::from(CofactorGroup::into_subgroup(p)) {
+            Some(s) => {
+                o.push("some".into());
+                o.push(hex(s.to_bytes().as_ref()));
+            }
+            None => o.push("none".into()),
+        }
+        o
+    });
+    // trait group ops vs inherent: p q s
+    m.insert("gp.ed_ops", |a| {
+        let (p, q, s) = (a.ed(0), a.ed(1), a.sc(2));
+        let e = |x: EdwardsPoint| hex(x.compress().as_bytes());
+        vec![
+            e(Group::double(&p)),
+            e(-p),
+            e(p + q),
+            e(p - q),
+            e(p * s),
+            e([p, q].iter().sum::<EdwardsPoint>()),
+            tb(bool::from(Group::is_identity(&p))),
+            e(<EdwardsPoint as Group>::identity()),
+            e(<EdwardsPoint as Group>::generator()),
+        ]
+    });
+    m.insert("gp.sub_ops", |a| {
+        // subgroup points built from torsion-free inputs via into_subgroup
+        let p = Option::<SubgroupPoint>::from(a.ed(0).into_subgroup()).unwrap_or_else(|| panic!("ARG: not torsion free"));
+        let q = Option::<SubgroupPoint>::from(a.ed(1).into_subgroup()).unwrap_or_else(|| panic!("ARG: not torsion free"));
+        let s = a.sc(2);
+        let e = |x: SubgroupPoint| hex(x.to_bytes().as_ref());
+        let ep = a.ed(0);
+        vec![
+            e(Group::double(&p)),
+            e(-p),
+            e(p + q),
+            e(p - q),
+            e(p * s),
+            e([p, q].iter().sum::<SubgroupPoint>()),
+            tb(bool::from(Group::is_identity(&p))),
+            e(<SubgroupPoint as Group>::identity()),
+            e(<SubgroupPoint as Group>::generator()),
+            hex((ep + q).compress().as_bytes()),
+            hex((ep - q).compress().as_bytes()),
+            hex(EdwardsPoint::from(p).compress().as_bytes()),
+        ]
+    });
+    m.insert("gp.rs_ops", |a| {
+        let (p, q, s) = (a.rs(0), a.rs(1), a.sc(2));
+        let e = |x: RistrettoPoint| hex(x.compress().as_bytes());
+        vec![
+            e(Group::double(&p)),
+            e(-p),
+            e(p + q),
+            e(p - q),
+            e(p * s),
+            e([p, q].iter().sum::<RistrettoPoint>()),
+            tb(bool::from(Group::is_identity(&p))),
+            e(<RistrettoPoint as Group>::identity()),
+            e(<RistrettoPoint as Group>::generator()),
+            e(CofactorGroup::clear_cofactor(&p)),
+            tb(bool::from(CofactorGroup::is_torsion_free(&p))),
+        ]
+    });
+}
